@@ -189,6 +189,7 @@ def motion_notify_rule(ctx, cg=None):
 
 def run(ctx):
     ctx.attempt(history_state_reset_rule, ctx)
+    ctx.attempt(live_embedding_rule, ctx)
     ctx.attempt(per_problem_memo_rule, ctx)
     ctx.attempt(history_walk_rule, ctx)
     from ..shared import notify_last_rule as _notify_last_rule
@@ -741,3 +742,47 @@ def history_walk_rule(ctx, rid="R14.22"):
             r.fail(f.qualname, f"walk:{walk}", f.file, f.lineno, "_Simu.Set_Iter", f"history on meshes {hist}, visits {walk}: {bad}")
         else:
             r.ok(f"visits {walk}: mesh and index follow the restored iteration")
+
+
+def live_embedding_rule(ctx):
+    """R14.23: 'moving, rotating ... the mesh ... identical to a new simulation constructed directly in the final
+    configuration': the quantities a Mesh derives from its element groups follow the groups' CURRENT state.  The
+    constructor is interpreted on stub groups lying in the plane (inDim 2); the groups are then moved out of the plane
+    (their own, live inDim becomes 3, as after Mesh.Rotate about an in-plane axis or `mesh.coord = ...`) and the public
+    accessors are read again: Mesh.inDim must equal the value a Mesh constructed on the moved groups reports.  (A value
+    frozen in __init__ keeps the planar answer: pressure loads, weak-form thickness and the dimension check of the
+    simulation then work in the wrong space.)"""
+    from types import SimpleNamespace
+
+    from ..xarray import XArray
+    from ..xeval import Interp, XObj
+
+    repo = ctx.repo
+    r = ctx.rule("R14.23", "Mesh.inDim (and dim) read after the element groups changed their embedding equal those of a Mesh constructed on the changed groups", min_instances=2)
+    ci = repo.cls(MESH)
+    init = ci.methods["__init__"]
+
+    def build(groups):
+        obj = XObj(ci, {})
+        I = Interp(repo, extra_builtins={"print": lambda *a, **k: None})
+        I.call_hook = lambda fn, args, kwargs: None if isinstance(fn, FuncInfo) and fn.module.name.startswith("EasyFEA.Utilities") else NotImplemented
+        I.call_function(init, [groups], self_obj=obj)
+        return I, obj
+
+    for prop in ("inDim", "dim"):
+        f = repo.lookup_method(ci, prop)
+        r.instance(fn=f.qualname)
+        groups = {}
+        for tag, c, d in (("TRI3", [[0, 1, 2]], 2), ("SEG2", [[0, 1]], 1)):
+            groups[tag] = SimpleNamespace(Ncoords=3, dim=d, inDim=2, connect=XArray((len(c), len(c[0])), [n for row in c for n in row]), elemType=tag)
+        I, obj = build(groups)
+        before = I.call_function(f, [], self_obj=obj)
+        for g in groups.values():
+            g.inDim = 3  # the groups were moved out of their plane
+        after = I.call_function(f, [], self_obj=obj)
+        I2, fresh = build(groups)
+        want = I2.call_function(f, [], self_obj=fresh)
+        if int(after) == int(want):
+            r.ok(f"Mesh.{prop}: {int(before)} -> {int(after)} follows the groups")
+        else:
+            r.fail(f.qualname, f"stale-after-move:{prop}", f.file, f.lineno, f"Mesh.{prop}", f"after the element groups left their plane Mesh.{prop} still answers {int(after)}; a Mesh constructed on the same groups answers {int(want)}: add_pressureLoad, the weak-form thickness and _Check_dim_mesh_material use the stale value")
